@@ -335,13 +335,17 @@ def r5_scan(prog, rep: Report, g: Func, f: Func):
     if isinstance(call, ast.Call) and src(call.func) == f.name and len(call.args) >= 2:
         from ..util import expand_all as _ea0
         a0 = _ea0(call.args[0], flow)                     # n = len(elements); range(n)
+        while isinstance(a0, ast.Call) and src(a0.func) in ("list", "tuple") and len(a0.args) == 1 and not a0.keywords:
+            a0 = a0.args[0]                               # all_indices = tuple(range(len(elements))): the same indices, as a sequence
+        idx_ok = True if src(a0) == f"range(len({elements}))" else (False if isinstance(a0, ast.Call) and src(a0.func) == "range" else None)
         key_ok = _is_score_sum_key(g, call.args[1], scores)
-        ok_call = src(a0) == f"range(len({elements}))" and key_ok is True \
-            and any(k.arg == "yield_key" and const_value(k.value) is True for k in call.keywords)
-        if not ok_call and key_ok is None and src(a0) == f"range(len({elements}))" \
-                and any(k.arg == "yield_key" and const_value(k.value) is True for k in call.keywords):
-            rep.unrec("C17.R5", g, "feeds", f"the key handed to {f.name} is `{src(call.args[1])[:60]}`: whether it is the exact sum of the "
-                      "scores of the indices is not read from its body")
+        yk_ok = any(k.arg == "yield_key" and const_value(k.value) is True for k in call.keywords)
+        ok_call = idx_ok is True and key_ok is True and yk_ok
+        if not ok_call and yk_ok and idx_ok is not False and key_ok is not False:
+            what = (f"the key handed to {f.name} is `{src(call.args[1])[:60]}`: whether it is the exact sum of the scores of the indices "
+                    "is not read from its body") if key_ok is None else \
+                f"the elements handed to {f.name} are `{src(a0)[:60]}`: whether these are all element indices is not read"
+            rep.unrec("C17.R5", g, "feeds", what)
             return
     from ..util import expand_all as _ea
     call_x = _ea(call, flow) if isinstance(call, ast.AST) else call
